@@ -2,13 +2,18 @@ package main
 
 // Group for C08 (common/util): IsLocal is inside the translator subset; StripLocalAddresses is tied by a
 // statement listing (skeleton with every assignment and returned expression: the nested guards of its
-// filter loop) and by differential runs.
+// filter loop) and by differential runs.  The two functions that send a description to the broker —
+// (*BrokerChannel).Negotiate and (*SignalingServer).sendAnswer — are listed with every call, literal,
+// assignment and condition plus the identifiers of each statement and the signature (`idents`): the
+// data-flow ties of the "applied before it leaves the process" clause (Tie/StripApplied{Client,Proxy}.lean).
 
 func init() {
 	register(&group{name: "Util",
 		fns: []fnSpec{{lean: "IsLocal", dir: "common/util", name: "IsLocal"}},
 		skels: []skelSpec{
 			{lean: "stmts_StripLocalAddresses", dir: "common/util", name: "StripLocalAddresses", assigns: `.`, returns: true},
+			{lean: "stmts_Negotiate", dir: "client/lib", name: "BrokerChannel.Negotiate", calls: `.`, assigns: `.`, returns: true, idents: true},
+			{lean: "stmts_sendAnswer", dir: "proxy/lib", name: "SignalingServer.sendAnswer", calls: `.`, assigns: `.`, returns: true, idents: true},
 		},
 	})
 }
